@@ -185,10 +185,10 @@ def slotsOkB (S : Schema) : List FieldD → List Val → Bool
 def slotOkB (S : Schema) (f : FieldD) : Val → Bool
   | .ph =>
     (flatFieldB f && !f.optional) || (subFieldAnyB f && !f.optional) || (timeFieldAnyB f && !f.optional)
-    || (wrapFieldAnyB f && !f.optional) || mapFieldSB f || mapFieldMAnyB f
+    || (wrapFieldAnyB f && !f.optional) || mapFieldSB f || mapFieldMAnyB f || !f.optional
   | .none =>
     (flatFieldB f && f.optional) || (subFieldAnyB f && f.optional) || (timeFieldAnyB f && f.optional)
-    || (wrapFieldAnyB f && f.group.isNone)
+    || (wrapFieldAnyB f && f.group.isNone) || f.optional
   | .msg c sl _ unk cur =>
     subFieldB f c && !f.repeated &&
     (match S[c]? with
